@@ -20,7 +20,7 @@ FacetValues == [
     attrs  |-> {"ok", "missing_ct", "missing_md", "missing_st", "dup_ct", "dup_md", "dup_st", "unknown"},
     digest |-> {"ok", "bad", "short", "long", "empty"},     \* wrong octet; a proper prefix; the digest plus one octet; no octets
     sig    |-> {"ok", "wrongkey", "bitflip"},
-    sid    |-> {"ok", "bad"},
+    sid    |-> {"ok", "bad", "long"},                  \* one bit wrong; the right identifier followed by one more octet
     \* the embedded certificate: signed by another key, outside its validity, wrong AKI, a CA certificate (cA = TRUE), or a
     \* subject key identifier that is not the hash of its key (the signer identifier then names that wrong identifier)
     ee     |-> {"ok", "wrongissuer", "expired", "notyet", "akibad", "isca", "skibad"},
@@ -35,6 +35,9 @@ Facets == DOMAIN FacetValues
 \* conforming prefixes of the other family, covered by the certificate, are present as well.  roa.rs checks the two families in
 \* two separate loops; the statement speaks of "every ROA prefix".
 Fams == {"v4", "v6", "v4+", "v6+"}
+\* ROA: the overclaim policy of the EE certificate.  "trim" (RFC 8360): the certificate claims a whole /8 (/32) of which the issuer
+\* holds two separate pieces (one); its validated resources are those pieces, and prefixes lie in the first AND in a later piece.
+Pols == {"refuse", "trim"}
 \* which coverage deviations exist for which kind of object
 CoverFor(k) == CASE k = "roa"  -> {"ok", "outside", "wider", "straddle", "nores"}
                  [] k = "aspa" -> {"ok", "outside", "inherit", "hasip4", "hasip6", "ipinherit"}
@@ -51,16 +54,18 @@ DecodeRejects(o) == o.f.attrs # "ok" \/ o.f.ctattr # "ok"
 
 VARIABLES obj, devs
 vars == <<obj, devs>>
-Init == \E k \in Kinds, s \in Sizes, fm \in Fams :
+Init == \E k \in Kinds, s \in Sizes, fm \in Fams, pl \in Pols :
           /\ (k # "gen" => s = "small")            \* ROA / ASPA / manifest attribute sets have a fixed size
-          /\ (k # "roa" => fm = "v4")
-          /\ obj = [kind |-> k, size |-> s, fam |-> fm, f |-> Conforming] /\ devs = 0
+          /\ (k # "roa" => fm = "v4" /\ pl = "refuse")
+          /\ obj = [kind |-> k, size |-> s, fam |-> fm, pol |-> pl, f |-> Conforming] /\ devs = 0
 Deviate == /\ devs < MaxDev
            /\ \E fc \in Facets : \E v \in FacetValues[fc] :
                 /\ obj.f[fc] = "ok" /\ v # "ok"
                 /\ (fc = "cover" => v \in CoverFor(obj.kind))
                 \* "a family the certificate has no resources for" needs a family the certificate does not hold
                 /\ (fc = "cover" /\ v = "nores" => obj.fam \in {"v4", "v6"})
+                \* (the range that ends inside a prefix is realised with explicit blocks: no-overclaim certificates only)
+                /\ (fc = "cover" /\ v = "straddle" => obj.pol = "refuse")
                 /\ (fc = "crl" => obj.kind \in {"roa", "aspa", "gen"})   \* the process() entry points take a CRL callback
                 /\ obj' = [obj EXCEPT !.f[fc] = v]
            /\ devs' = devs + 1
